@@ -270,6 +270,19 @@ func sqlOperatorPrecedence(upperOp string) int {
 }
 
 // operandSQL renders an operand, adding parentheses when it binds looser than its parent.
+// OperatorPrecedence is the binding strength of a binary operator as the parser sees it
+// (OR 1, AND 2, comparisons 4, || 5, + - 6, * / % 7, everything else 8).
+func OperatorPrecedence(op string) int { return sqlOperatorPrecedence(strings.ToUpper(op)) }
+
+// NeedsParentheses reports whether e, written as an operand of an operator of strength parentPrec
+// (right = it is the right operand), must be parenthesised to be read back as the same tree.
+func NeedsParentheses(e Expression, parentPrec int, right bool) bool {
+	return operandSQL(e, parentPrec, right) != exprSQL(e)
+}
+
+// BeginsWithExists reports whether the text of e starts with EXISTS.
+func BeginsWithExists(e Expression) bool { return beginsWithExists(e) }
+
 func operandSQL(e Expression, parentPrec int, right bool) string {
 	s := exprSQL(e)
 	p := 9
